@@ -264,8 +264,90 @@ func c06Routing(t *T) {
 }
 
 // c06CrossRename: rename of a regular file across two mounts with faults on either side.
+// c06RenameOddEnds: what is not "a regular file renamed across two mounts" must not pass for one. A source that
+// does not exist, and a destination whose files cannot be written: Rename fails and both sides stay as they were.
+func c06RenameOddEnds(t *T) {
+	c := t.C
+	srcPt := []string{"a", "b", "."}[c.Draw(3)]
+	dstPt := map[string]string{"a": "b", "b": ".", ".": "a"}[srcPt]
+	w := buildMountWorld(t, []string{"a", "b"}, true)
+	name := func(pt, base string) string {
+		if pt == "." {
+			return base
+		}
+		return pt + "/" + base
+	}
+	src, dst := name(srcPt, "src"), name(dstPt, "dst")
+	what := ""
+	switch c.Draw(2) {
+	case 0:
+		what = "missing-source"
+		switch c.Draw(3) {
+		case 1:
+			must(t, hackpadfs.WriteFullFile(w.cores[dstPt].inner, "dst", []byte("old destination"), 0600))
+			what += ":onto-file"
+		case 2:
+			must(t, hackpadfs.Mkdir(w.cores[dstPt].inner, "dst", 0755))
+			what += ":onto-directory"
+		}
+	default:
+		what = "destination-files-without-Write"
+		must(t, hackpadfs.WriteFullFile(w.cores[srcPt].inner, "src", uniqueData(1, 700), 0644))
+		w.cores[dstPt].fileMode = "base"
+	}
+	pre := w.snapshotParts(w.parts, true)
+	err := w.mfs.Rename(src, dst)
+	post := w.snapshotParts(w.parts, true)
+	t.Logf("mode=cross-rename-odd-ends %s: Rename(%q,%q) -> %v", what, src, dst, err)
+	if err == nil {
+		t.Fail("rename", "C06:cross-rename:"+what+":returned-nil", fmt.Sprintf("Rename(%q,%q) across two mounts (%s) returned nil", src, dst, what))
+	}
+	if post != pre {
+		t.Fail("rename", "C06:cross-rename:"+what+":failed-but-changed", fmt.Sprintf("Rename(%q,%q) across two mounts (%s) failed (%v) but the file systems changed:\nbefore:\n%s\nafter:\n%s", src, dst, what, err, pre, post))
+	}
+	t.NonTrivial()
+}
+
+// c06AddMountFault: AddMount while the file system that holds the mount point fails one call: nil means mounted.
+func c06AddMountFault(t *T) {
+	c := t.C
+	w := buildMountWorld(t, nil, true)
+	must(t, hackpadfs.Mkdir(w.cores["."].inner, "a", 0755))
+	m, _ := mem.NewFS()
+	must(t, hackpadfs.WriteFullFile(m, "marker", []byte("mounted"), 0644))
+	core := w.cores["."]
+	core.faultAt = len(core.calls) + c.Draw(4)
+	err := w.mfs.AddMount("a", m)
+	fired := core.fired
+	core.faultAt = -1
+	_, serr := hackpadfs.Stat(w.mfs, "a/marker")
+	mounted := false
+	for _, p := range w.mfs.MountPoints() {
+		if p.Path == "a" {
+			mounted = true
+		}
+	}
+	t.Logf("mode=addmount-fault AddMount(a) -> %v (fault fired: %q); listed as mounted=%v; Stat(a/marker) -> %v", err, fired, mounted, serr)
+	if fired == "" {
+		return
+	}
+	if (err == nil) != mounted || (err == nil) != (serr == nil) {
+		t.Fail("addmount", "C06:addmount:fault="+fired+":outcome-and-table-disagree", fmt.Sprintf("AddMount(\"a\") returned %v after the parent's %s failed, but the mount table lists it: %v, and a path below it resolves into the new file system: %v", err, fired, mounted, serr == nil))
+	}
+	t.Stat("probe:fault-inside-addmount")
+	t.NonTrivial()
+}
+
 func c06CrossRename(t *T) {
 	c := t.C
+	switch c.Weighted(12, 1, 1) {
+	case 1:
+		c06RenameOddEnds(t)
+		return
+	case 2:
+		c06AddMountFault(t)
+		return
+	}
 	srcPt := []string{"a", "b", "."}[c.Draw(3)]
 	dstPt := []string{"b", "a", "."}[c.Draw(3)]
 	if srcPt == dstPt {
